@@ -286,7 +286,8 @@ func performSeek(ctx context.Context, ps Store, memRes []KeyValueExists, rng See
 						haveMem = false
 					}
 				} else {
-					if !bytes.Equal(kvMem.Key, kvPs.Key) {
+					// kvMem is stale (and may have its prefix cut) once the cached items are exhausted.
+					if !haveMem || !bytes.Equal(kvMem.Key, kvPs.Key) {
 						if cutPrefix {
 							kvPs.Key = kvPs.Key[lPrefix:]
 						}
